@@ -229,11 +229,20 @@ type chainCell struct {
 	h       util.Uint160
 	realTx  bool
 	nAccs   int // realTx: number of funded accounts that sign after the validator
+	byKey   []byte // when set: CheckWitness is given this public key (whose account is h) instead of h
 }
 
-func checkScript(h util.Uint160) []byte {
+// arg is the byte string handed to System.Runtime.CheckWitness.
+func (c *chainCell) arg() []byte {
+	if c.byKey != nil {
+		return c.byKey
+	}
+	return c.h.BytesBE()
+}
+
+func checkScript(arg []byte) []byte {
 	w := io.NewBufBinWriter()
-	emit.Bytes(w.BinWriter, h.BytesBE())
+	emit.Bytes(w.BinWriter, arg)
 	emit.Syscall(w.BinWriter, "System.Runtime.CheckWitness")
 	emit.Opcodes(w.BinWriter, opcode.RET)
 	return w.Bytes()
@@ -242,7 +251,7 @@ func checkScript(h util.Uint160) []byte {
 // bodyScript: what a script frame (entry or dynamic script) at position k executes. Position 0 is the entry.
 func (cs *chainState) bodyScript(c *chainCell, k int) []byte {
 	if k == len(c.hops) {
-		return checkScript(c.h)
+		return checkScript(c.arg())
 	}
 	nx := c.hops[k]
 	w := io.NewBufBinWriter()
@@ -257,7 +266,7 @@ func (cs *chainState) bodyScript(c *chainCell, k int) []byte {
 		emit.Syscall(w.BinWriter, "System.Runtime.LoadScript")
 	case hopNative:
 		// GAS.transfer(this script, proxy, 0, h)
-		emit.Bytes(w.BinWriter, c.h.BytesBE())
+		emit.Bytes(w.BinWriter, c.arg())
 		emit.Int(w.BinWriter, 0)
 		emit.Bytes(w.BinWriter, cs.proxies[nx.proxy].hash.BytesBE())
 		emit.Syscall(w.BinWriter, "System.Runtime.GetExecutingScriptHash")
@@ -272,7 +281,7 @@ func (cs *chainState) bodyScript(c *chainCell, k int) []byte {
 // bodyCall: the method and arguments with which the contract hop at position k (1-based) is entered.
 func (cs *chainState) bodyCall(c *chainCell, k int) (string, []any) {
 	if k == len(c.hops) {
-		return "cw", []any{c.h.BytesBE()}
+		return "cw", []any{c.arg()}
 	}
 	me := cs.proxies[c.hops[k-1].proxy].hash
 	nx := c.hops[k]
@@ -283,7 +292,7 @@ func (cs *chainState) bodyCall(c *chainCell, k int) (string, []any) {
 	case hopDynamic:
 		return "dyn", []any{cs.bodyScript(c, k+1), int64(nx.flags), []any{}}
 	default:
-		return "call", []any{cs.gas, "transfer", int64(nx.flags), []any{me, cs.proxies[nx.proxy].hash, int64(0), c.h.BytesBE()}}
+		return "call", []any{cs.gas, "transfer", int64(nx.flags), []any{me, cs.proxies[nx.proxy].hash, int64(0), c.arg()}}
 	}
 }
 
@@ -401,6 +410,11 @@ func (cs *chainState) genCell(r *prng.R) *chainCell {
 		c.h = util.Uint160{} // the calling hash of the entry script
 	default:
 		c.h = cs.accounts[r.Intn(len(cs.accounts))]
+	}
+	for _, a := range cs.accs {
+		if a.ScriptHash() == c.h && r.Chance(1, 3) {
+			c.byKey = a.(neotest.SingleSigner).Account().PublicKey().Bytes()
+		}
 	}
 	return c
 }
@@ -543,8 +557,11 @@ func runChainCase(o *hx.Out, k int, r *prng.R, cs *chainState) {
 	if c.realTx {
 		layer = "chain-tx"
 	}
-	judge(o, k, layer, e, c.signers, c.h, obs, func() string { return c.shape() + " " + line })
+	judge(o, k, layer, cs.u, e, c.signers, c.h, obs, func() string { return c.shape() + " " + line })
 	o.Count(layer + ":shape=" + c.shape())
+	if c.byKey != nil {
+		o.Count(layer + ":argument-is-public-key")
+	}
 	if len(c.hops) > 0 && !e.frames[0].rs {
 		o.Count(layer + ":final-without-readstates")
 	}
